@@ -487,3 +487,47 @@ Print Assumptions dir_fix_runs_mark.
 Print Assumptions dir_fix_runs_c.
 Print Assumptions dir_reorder_spec.
 Print Assumptions dir_reorder_total.
+
+(* ---- packaged statements cited by Properties_C18.v ---- *)
+Lemma marks_not_nullable : forallb (fun m : Z * Z * Z * list N => negb (pat_nullable (snd m))) dirmarks = true.
+Proof. vm_compute. reflexivity. Qed.
+
+Theorem dr_of_perm : forall xtd ctxfound raw s,
+  Permutation (dr_of xtd ctxfound raw s (seq 0 (uc_slen s))) (seq 0 (uc_slen s)).
+Proof.
+  intros. unfold dr_of. destruct (dir_reorder s xtd ctxfound raw (seq 0 (uc_slen s))) as [r|] eqn:E; [|reflexivity].
+  apply (dir_reorder_spec _ _ _ _ _ E).
+Qed.
+
+Theorem dir_reorder_identity : forall s xtd ctxfound raw,
+  (forall b e ctx flg, raw b e ctx flg = None) ->
+  dir_reorder s xtd ctxfound raw (seq 0 (uc_slen s)) = Some (seq 0 (uc_slen s)).
+Proof.
+  intros s xtd cf raw H. unfold dir_reorder.
+  set (nl := (0 <? uc_slen s)%nat && (nthb s (nth (uc_slen s - 1) (uc_chop s) 0%nat) =? 10)%N).
+  assert (E : (if nl then upd (seq 0 (uc_slen s)) (uc_slen s - 1) (uc_slen s - 1)%nat else seq 0 (uc_slen s)) = seq 0 (uc_slen s)).
+  { destruct nl eqn:N; [|reflexivity]. apply upd_seq_last. unfold nl in N. apply andb_prop in N. destruct N as [N _].
+    apply Nat.ltb_lt in N. exact N. }
+  rewrite E. apply dir_fix_identity; [|lia].
+  intros _. unfold dir_match. rewrite H. reflexivity.
+Qed.
+
+Theorem dir_fix_runs : forall cm N, cm_ok cm N ->
+  forall fuel ord dir b e ord', (e <= N)%nat -> (e <= length ord)%nat -> dir_fix cm fuel ord dir b e = Some ord' ->
+  (forall i d, (forall m, top cm dir e b m -> ~ (r_beg m <= i < r_end m)%nat) -> nth i ord' d = nth i ord d) /\
+  (forall m, top cm dir e b m -> c_rec m = false -> c_beg m = r_beg m -> c_end m = r_end m ->
+     forall i d, (r_beg m <= i < r_end m)%nat ->
+     nth i ord' d = if xorb (dir <? 0)%Z (c_dir m <? 0)%Z then nth (r_beg m + r_end m - 1 - i) ord d else nth i ord d) /\
+  (forall m, top cm dir e b m ->
+     Permutation (firstn (r_end m - r_beg m) (skipn (r_beg m) ord')) (firstn (r_end m - r_beg m) (skipn (r_beg m) ord))).
+Proof.
+  intros cm N Hok fuel ord dir b e ord' He Hl Hf. split; [|split].
+  - intros i d Hi. eapply dir_fix_runs_a; eauto.
+  - intros m Ht Hr Hb Hee i d Hi. eapply dir_fix_runs_mark; eauto.
+  - intros m Ht. eapply dir_fix_runs_c; eauto.
+Qed.
+
+Print Assumptions marks_not_nullable.
+Print Assumptions dr_of_perm.
+Print Assumptions dir_reorder_identity.
+Print Assumptions dir_fix_runs.
